@@ -360,6 +360,8 @@ pub struct Run {
     pub assumptions: Vec<String>,
     start: Instant,
     machinery: Vec<String>,
+    /// evidence file stem when it differs from the property id (secondary evidence of a property)
+    pub evidence_name: Option<String>,
 }
 
 impl Run {
@@ -373,6 +375,7 @@ impl Run {
             assumptions: vec![],
             start: Instant::now(),
             machinery: vec![],
+            evidence_name: None,
         }
     }
     pub fn tier(&self) -> Tier {
@@ -473,7 +476,7 @@ impl Run {
         });
         let evdir = verif_root().join("evidence");
         std::fs::create_dir_all(&evdir).ok();
-        let evp = evdir.join(format!("{}.json", self.prop));
+        let evp = evdir.join(format!("{}.json", self.evidence_name.clone().unwrap_or_else(|| self.prop.clone())));
         if self.args.replay.is_none() {
             std::fs::write(&evp, serde_json::to_string_pretty(&ev).unwrap()).expect("write evidence");
         }
